@@ -792,3 +792,11 @@ package randomness
 //@   ensures r0.P == DiscreteFourierTransformTestBytes#0(data) && r0.Q == DiscreteFourierTransformTestBytes#1(data)
 //@   ensures r0.Pass == (r0.P >= Alpha)
 
+
+//@ func ReadGroup
+//@   panics only when true
+//@   modifies nothing
+//@   ghost oserr
+//@   loop 1
+//@     invariant len(bits) == 8*$i && fresh(bits) && off(bits) == 0 && len(buf) == filelen(filename)
+//@     invariant forall k int :: {bits[k]} 0 <= k && k < 8*$i ==> bits[k] == expand(buf)[k]
